@@ -126,6 +126,14 @@ protected:
         });
     }
 
+    // Forget the names registered since there were `oldSize` of them (rollback of a rejected command)
+    void shrinkTo(std::size_t oldSize) {
+        while (scopedNamesAndTerms.size() > oldSize) {
+            eraseTermName(scopedNamesAndTerms.back().first);
+            scopedNamesAndTerms.popBack();
+        }
+    }
+
     bool eraseTermName(TermName const & name) {
         auto termIt = nameToTerm.find(name);
         if (termIt == nameToTerm.end()) { return false; }
